@@ -332,9 +332,14 @@ impl StateModel {
         energy: &Energy,
         from_unit: &EnergyUnit,
     ) -> Result<(), StateModelError> {
-        let prev_energy = self.get_energy(state, name, from_unit)?;
-        let next_energy = prev_energy + *energy;
-        self.set_energy(state, name, &next_energy, from_unit)
+        // convert the increment to the feature's own unit and add it there. reading the
+        // accumulated value in `from_unit` and writing the sum back is a round trip through
+        // two rounded conversion factors (kWh -> gallons -> kWh is x 1.00006), which changed
+        // everything accumulated so far with every call, even when adding zero.
+        let to_unit = self.get_feature(name)?.get_energy_unit()?;
+        let prev_energy = self.get_energy(state, name, &to_unit)?;
+        let next_energy = prev_energy + from_unit.convert(energy, &to_unit);
+        self.set_energy(state, name, &next_energy, &to_unit)
     }
 
     pub fn set_distance(
